@@ -21,20 +21,23 @@ var Hosts = []string{
 	"www.ck", "x.www.ck", "y.x.ck", "city.kawasaki.jp", "x.city.kawasaki.jp", "x.y.kawasaki.jp",
 	"a.blogspot.com", "b.a.blogspot.com",
 	"localhost", "intranet", "1.2.3.4", "10.0.0.1",
+	// Real domain names that consist of hexadecimal characters only (they look
+	// like addresses to a character-class pre-filter).
+	"bce.ca", "abc.de", "fe.abc.de", "feed.cafe", "dead.beef", "ad.fad.dad.de",
 }
 
 // DomainValues are values for $domain and $denyallow.
 var DomainValues = []string{
 	"a.com", "b.a.com", "a.org", "a.co.uk", "evil.org", "google.com", "google.co.uk", "google.*", "a.*",
 	"xgoogle.*", "ads.net", "example.com", "example.org", "sub.example.org", "tracker.io",
-	"www.ck", "kawasaki.jp", "city.kawasaki.jp", "co.uk", "com", "localhost", "example.*", "www.google.*", "b.a.*", "ads.example.*",
+	"www.ck", "kawasaki.jp", "city.kawasaki.jp", "co.uk", "com", "localhost", "example.*", "www.google.*", "b.a.*", "ads.example.*", "abc.de", "cafe",
 }
 
 // DenyAllowValues are values for $denyallow (no wildcard: the statement does
 // not define it there).
 var DenyAllowValues = []string{
 	"a.com", "b.a.com", "a.org", "a.co.uk", "evil.org", "google.com", "ads.net", "example.com",
-	"example.org", "tracker.io", "co.uk", "com", "localhost",
+	"example.org", "tracker.io", "co.uk", "com", "localhost", "abc.de", "cafe", "bce.ca",
 }
 
 // Paths are URL tails.
